@@ -119,11 +119,11 @@ func checkC05(c *Ctx) {
 	wd := p.Func(ed, "", "writeDom")
 	c.transcriptRule(p, "C05.table", "dom2 absent for pure Ed25519", wd, map[string]lat{"ctx": latNil, "preHash": latFalse}, w, 1, nil)
 	c.transcriptRule(p, "C05.table", "dom2(1, '') for Ed25519ph with empty context", wd, map[string]lat{"ctx": latNil, "preHash": latTrue}, w, 1, []string{dom2, "[1 0]"})
-	c.transcriptRule(p, "C05.table", "dom2(0, ctx) for Ed25519ctx", wd, map[string]lat{"ctx": nonEmpty, "preHash": latFalse}, w, 1, []string{dom2, "[0 (len(param:ctx))]", "param:ctx"})
-	c.transcriptRule(p, "C05.table", "dom2(1, ctx) for Ed25519ph", wd, map[string]lat{"ctx": nonEmpty, "preHash": latTrue}, w, 1, []string{dom2, "[1 (len(param:ctx))]", "param:ctx"})
+	c.transcriptRule(p, "C05.table", "dom2(0, ctx) for Ed25519ctx", wd, map[string]lat{"ctx": nonEmpty, "preHash": latFalse}, w, 1, []string{dom2, "[0 (len(param#1))]", "param#1"})
+	c.transcriptRule(p, "C05.table", "dom2(1, ctx) for Ed25519ph", wd, map[string]lat{"ctx": nonEmpty, "preHash": latTrue}, w, 1, []string{dom2, "[1 (len(param#1))]", "param#1"})
 	wd4 := p.Func(e4, "", "writeDom")
-	c.transcriptRule(p, "C05.table", "dom4(0, ctx) for Ed448", wd4, map[string]lat{"ctx": nonEmpty, "preHash": latFalse}, w, 1, []string{`"SigEd448"`, "[0 (len(param:ctx))]", "param:ctx"})
-	c.transcriptRule(p, "C05.table", "dom4(1, ctx) for Ed448ph", wd4, map[string]lat{"ctx": nonEmpty, "preHash": latTrue}, w, 1, []string{`"SigEd448"`, "[1 (len(param:ctx))]", "param:ctx"})
+	c.transcriptRule(p, "C05.table", "dom4(0, ctx) for Ed448", wd4, map[string]lat{"ctx": nonEmpty, "preHash": latFalse}, w, 1, []string{`"SigEd448"`, "[0 (len(param#1))]", "param#1"})
+	c.transcriptRule(p, "C05.table", "dom4(1, ctx) for Ed448ph", wd4, map[string]lat{"ctx": nonEmpty, "preHash": latTrue}, w, 1, []string{`"SigEd448"`, "[1 (len(param#1))]", "param#1"})
 
 	// --- challenge hash dependence ---
 	c.depRule(p, "C05.dep", "challenge hash input (verify)", p.Func(ed, "", "verify"), sinkCallArg(0, "sign/ed25519.reduceModOrder"),
